@@ -206,6 +206,20 @@ def run_all(tier, seed, tags=("gasan",), wrapper=(), jobs_filter=None):
             if len(total.samples) < 5 and r.samples and (job_kind(r) not in [job_kind2(x) for x in total.samples]):
                 total.samples.append(r.samples[0])
         total.stats["jobs:" + tag] += len(jobs)
+    # a capacity beyond 2^32 elements (4 GiB of char): uninstrumented build, only with enough free memory
+    try:
+        avail = int([l for l in open("/proc/meminfo") if l.startswith("MemAvailable")][0].split()[1]) // 1024
+    except Exception:
+        avail = 0
+    if avail > 12000 and not jobs_filter:
+        exe = harness("plain", lvalue_ok)
+        r = run_job((exe, ("T", "huge", 0, 0, 0, 1, 1, 0), seed, ()))
+        total.viol.extend(r.viol)
+        total.crashes.extend(r.crashes)
+        total.stats.update(r.stats)
+        total.stats["jobs:plain(huge capacity)"] += 1
+    else:
+        total.stats["huge-capacity-skipped-for-lack-of-memory"] += 1
     return total
 
 
